@@ -123,11 +123,11 @@ CATALOGUE = [
     ("C16", "templates are walked too", "histogrammar/defs.py", "            if child is not None and child is not template:", "            if child is not None:", 3000),
     ("C16", "flag set before the walk", "histogrammar/defs.py", "            memo = set()\n        if id(self) in memo:", "            memo = set()\n            self._checkedForCrossReferences = True\n        if id(self) in memo:", 3000),
     # ---- C17
-    ("C17", "CachedFcn compares only the number of arguments", "histogrammar/util.py", "            and all(self._same(x, y) for x, y in zip(args, self.lastArgs))\n", "", 1500),
+    ("C17", "CachedFcn keys its memo on the number of arguments only", "histogrammar/util.py", "            return pickle.dumps((args, sorted(kwds.items())), protocol=pickle.HIGHEST_PROTOCOL)\n", "            return pickle.dumps((len(args), sorted(kwds)))\n", 1500),
     ("C17", "named() on a CachedFcn returns a plain UserFcn", "histogrammar/util.py", "    if isinstance(fcn, CachedFcn):\n        return CachedFcn(fcn.expr, name)", "    if isinstance(fcn, CachedFcn):\n        return UserFcn(fcn.expr, name)", 1500),
     ("C17", "string expressions keep the namespace of the first datum", "histogrammar/util.py", "                def function(datum):\n                    context = dict(globals())",
      "                _ctx = {}\n\n                def function(datum):\n                    context = _ctx if _ctx else dict(globals())\n                    _ctx.update(context)", 2500),
-    ("C17", "CachedFcn treats a one-row batch like its row", "histogrammar/util.py", "        if type(x) is not type(y):\n            return False\n", "", 4000),
+    ("C17", "CachedFcn keys its memo on == of the arguments (types, signed zeros, in-place reuse)", "histogrammar/util.py", "        if key is not None and key == getattr(self, \"lastKey\", None):\n", "        if getattr(self, \"_la\", None) is not None and self._la == (args, kwds):\n            return pickle.loads(self.lastReturn)\n        self._la = (args, kwds)\n        if False:\n", 4000),
     # round 3: single-site versions of what the independent seeded changes of that round needed
     ("C09", "Stack.__eq__ compares thresholds with == (NaN thresholds of Stack.build)", "histogrammar/primitives/stack.py",
      "numeq(c1, c2) and v1 == v2", "c1 == c2 and v1 == v2", 4000),
@@ -138,9 +138,8 @@ CATALOGUE = [
      "    if isinstance(fcn, CachedFcn):\n        fcn.name = name\n        return fcn", 1500),
     ("C06", "named() renames a CachedFcn in place (seen by the alias hunt)", "histogrammar/util.py",
      "    if isinstance(fcn, CachedFcn):\n        return CachedFcn(fcn.expr, name)", "    if isinstance(fcn, CachedFcn):\n        fcn.name = name\n        return fcn", 16000),
-    ("C17", "CachedFcn trusts identity of its argument (buffer reuse)", "histogrammar/util.py", "        if type(x) is not type(y):\n            return False\n",
-     "        if x is y:\n            return True\n        if type(x) is not type(y):\n            return False\n", 4000),
-    ("C17", "CachedFcn keeps a reference to its arguments", "histogrammar/util.py", "            self.lastArgs = copy.deepcopy(args)\n", "            self.lastArgs = args\n", 6000),
+    ("C17", "CachedFcn keys its memo on the identity of its arguments (buffer reuse)", "histogrammar/util.py", "        key = self._key(args, kwds)\n        if key is not None", "        key = self._key(tuple(id(a) for a in args), kwds)\n        if key is not None", 4000),
+    ("C17", "CachedFcn memoises a call that raised", "histogrammar/util.py", "        result = super().__call__(*args, **kwds)\n        if key is not None:", "        self.lastKey = key\n        result = super().__call__(*args, **kwds)\n        if key is not None:", 6000),
     ("C14", "Select.fill.numpy cleans the cut before weighting it (inf * 0)", "histogrammar/primitives/select.py",
      "        w = w * weights\n        w[numpy.isnan(w)] = 0.0\n        w[w < 0.0] = 0.0\n",
      "        w = numpy.array(w, dtype=numpy.float64)\n        w[numpy.isnan(w)] = 0.0\n        w[w < 0.0] = 0.0\n        w = w * weights\n", 2000),
